@@ -94,7 +94,7 @@ def run_full(c, record=None):
             return m
         matcher._find_best_vector_match = spy
     cand = None if c['cand'] is None else np.array(c['cand'])
-    return matcher, matcher.full_match(centers=c['pts'], zero=c['zero'], cand=cand, refineds=c['pts'], peak_values=c['w'], peak_elevations=c['w'])
+    return matcher, core.call_guarded(matcher.full_match, centers=c['pts'], zero=np.asarray(c['zero']), cand=cand, refineds=c['pts'], peak_values=c['w'], peak_elevations=c['w'])
 
 
 def stmt_failure(c):
